@@ -1,7 +1,7 @@
 /-
   C07 — Text messages are accepted iff their whole payload is valid UTF-8.
   Part 1 (this section): the DFA table and the standalone validating reader against Table 3-7,
-  for every byte string and every chunking. Part 2 (reader wiring) is in Props/C07Reader.lean.
+  for every byte string and every chunking. Part 2 (the reader, stream level) is in Props/C07Stream.lean.
 -/
 import WsVerif.Proofs.Utf8
 namespace Ws.C07
